@@ -339,6 +339,11 @@ class T:
             if res2["status"] != "unknown":
                 res2["backend"] = "%s (retry with %d ms)" % (res2.get("backend"), 4 * budget)
                 res = res2
+        if res["status"] == "failed" and _mentions_overapprox(asm + [goal], res.get("_z3model")):
+            # the counter-model uses a value the contracts deliberately left unconstrained (an over-approximated callee
+            # result): that is imprecision of the checker, not evidence against the code
+            res = {"status": "unknown", "backend": res.get("backend"), "seconds": res.get("seconds"),
+                   "detail": "counter-model depends on an over-approximated callee result (marker *_unknown!*): undecided"}
         extra = {}
         big_model = res if res["status"] == "failed" else None
         if (res["status"] == "unknown" or (res["status"] == "failed" and self.finite is not None and self.finite.get("replay"))) and self.finite is not None:
@@ -735,6 +740,22 @@ def relevant_facts(facts, seeds):
                 rest.append((f, sy))
         remaining = rest
     return out
+
+
+def _mentions_overapprox(formulas, model=None):
+    seen, stack = set(), list(formulas)
+    while stack:
+        e = stack.pop()
+        if not z3.is_expr(e) or e.get_id() in seen:
+            continue
+        seen.add(e.get_id())
+        if z3.is_const(e) and e.decl().kind() == z3.Z3_OP_UNINTERPRETED and "_unknown!" in e.decl().name():
+            return True
+        if z3.is_quantifier(e):
+            stack.append(e.body())
+        else:
+            stack.extend(e.children())
+    return False
 
 
 def run_task(full_name, tier, timeout_ms, clause_filter=None):
